@@ -600,7 +600,16 @@ func leaseRandom(r *rng) leaseScn {
 	if r.chance(1, 4) && feff > 1 {
 		shared -= uint32(r.intn(int(feff)))
 	}
-	latMode := r.intn(5)
+	if r.chance(1, 10) {
+		// around the 500-partition limit: exactly 499 / 500 / 501 / 600 partitions, also reached only by rounding up
+		// (floor(shared/factor) = 500 but ceil = 501)
+		parts = uint32(r.pick(499, 500, 501, 501, 600))
+		shared = parts * feff
+		if feff > 1 && r.chance(1, 2) {
+			shared = (parts-1)*feff + 1 + uint32(r.intn(int(feff)-1))
+		}
+	}
+	latMode := r.intn(6)
 	for i := 0; i < ni; i++ {
 		in := leaseInst{shared: shared, reserved: uint32(r.pick(0, 0, 1, 10)), factor: factor, maxInterval: uint32(r.pick(0, 50, 200, 500, 900))}
 		switch latMode {
@@ -612,6 +621,16 @@ func leaseRandom(r *rng) leaseScn {
 			for j := 0; j < 6; j++ {
 				in.pre = append(in.pre, int64(r.pick(0, 10, 300, 1500))*ms)
 				in.post = append(in.post, int64(r.pick(0, 10, 300, 1500))*ms)
+			}
+		case 5: // one call whose answer takes about a whole lease (or longer) to come back, the rest prompt
+			k := r.intn(3)
+			for j := 0; j < 4; j++ {
+				in.pre = append(in.pre, 0)
+				if j == k {
+					in.post = append(in.post, int64(r.pick(14000, 14999, 15000, 15001, 16000, 21000))*ms)
+				} else {
+					in.post = append(in.post, 0)
+				}
 			}
 		}
 		if r.chance(1, 3) {
